@@ -479,6 +479,21 @@ def scan(s, is_type=None):
     return items
 
 
+# DONT-CARE verdicts that are lenient *literal* forms (a token may come back)
+LENIENT_LITERAL_WHYS = ("lenient-escape", "char-count", "ucn-range")
+
+
+def literal_family(spelling):
+    """Token kinds a quoted spelling may have, from its prefix and quote."""
+    p = literal_prefix(spelling, 0) or ""
+    q = spelling[len(p):len(p) + 1]
+    if q == '"':
+        return (STRING_TYPE[p],)
+    if q == "'":
+        return (CHAR_TYPE[p], "INT_CONST_CHAR") if p == "" else (CHAR_TYPE[p],)
+    return ()
+
+
 _CLASSIFY_CACHE = {}
 
 
@@ -541,7 +556,10 @@ def judge(text, toks, errs, is_type=None, items=None):
       * if that item is REJECT: >= 1 error report inside the item and no token
         starting at the malformed core;
       * every token returned anywhere must have a spelling the reference
-        accepts for that type (or leaves DONT-CARE).
+        accepts for exactly that type, or be one of the documented lenient
+        literal forms (lenient / decimal escapes, > 4 c-chars, prefixed
+        multi-character constant) with the kind its prefix and quote imply;
+        a pp-number that is no constant must never come back as one token.
     """
     out = []
     if items is None:
@@ -593,7 +611,18 @@ def judge(text, toks, errs, is_type=None, items=None):
             continue
         v, ty, why = classify(t[1])
         if v == DONTCARE:
-            continue
+            # Only the documented lenient LITERAL forms may come back as a
+            # token, and only with the kind their prefix and quote imply.  A
+            # pp-number that is no constant (1ulu, 1e, 0x1e+1) may be split or
+            # reported, but never returned as one token.
+            if why in ("hash", "non-ascii"):
+                continue
+            if why in LENIENT_LITERAL_WHYS and t[0] in literal_family(t[1]):
+                continue
+            out.append((f"{t[0]}:unsound-spelling",
+                        f"lexer returned {t!r}; the reference accepts this spelling for no token "
+                        f"kind ({why})"))
+            break
         want = t[0] if t[0] != "TYPEID" else "ID"
         if v != ACCEPT or ty != want:
             out.append((f"{t[0]}:unsound-spelling",
